@@ -38,3 +38,16 @@ Proof. reflexivity. Qed.
 Theorem js_text_visitDataRef_matches_source :
   [t_op_open; t_nullsafe; t_op_open; t_nullsafe; t_op_open; t_nullsafe] = src_soyjs_state_visitDataRef_lits.
 Proof. reflexivity. Qed.
+Theorem js_text_visitFunction_matches_source :
+  [t_lpar; t_eq0; t_lpar; t_eqeq; t_minus1] = src_soyjs_state_visitFunction_lits.
+Proof. reflexivity. Qed.
+Theorem js_text_evalMsgParts_matches_source :
+  [t_plural_open; t_plural_close; t_case; t_colon; t_break; t_rbrace] = src_soyjs_state_evalMsgParts_lits.
+Proof. reflexivity. Qed.
+Theorem js_text_walkPlural_matches_source :
+  [t_switch_open; t_for_close; t_case; t_colon; t_break; t_default; t_rbrace] = src_soyjs_state_walkPlural_lits.
+Proof. reflexivity. Qed.
+Theorem js_text_op_matches_source : [t_op_open; t_op_mid1; t_op_mid2; t_op_close] = src_soyjs_state_op_lits.
+Proof. reflexivity. Qed.
+Theorem js_text_visitSoyFile_matches_source : [t_hdr1; t_dot; t_hdr2; []] = src_soyjs_state_visitSoyFile_lits.
+Proof. reflexivity. Qed.
